@@ -357,8 +357,9 @@ def check_l_count_law(ctx, case):
         r = orig(n, *a, **k)
         counts.append(float(numpy.sum(r)))
         return r
+    fore_l, cat_l = S.forecast(region), S.catalog(region)      # built outside the spy: the setup's own (unjudged) requests are not counted
     with mock.patch.object(P, "_simulate_catalog", spy):
-        o = call(P.likelihood_test, S.forecast(region), S.catalog(region), num_simulations=nsim, seed=case["seed"])
+        o = call(P.likelihood_test, fore_l, cat_l, num_simulations=nsim, seed=case["seed"])
     if not o.ok:
         ctx.unexpected(o, "likelihood_test_count_law")
         return
